@@ -332,6 +332,17 @@ def float_inexact(text):
         return True
 
 
+def filter_handler(FF, fk):
+    """the live handler of filter key `name(args)`: from the factory's cache when it is keyed that way, otherwise
+    through the public `make_filter` (a tree that re-keys or drops the cache must not crash the harness)"""
+    ent = FF._filter_cache.get(fk) if isinstance(getattr(FF, '_filter_cache', None), dict) else None
+    if ent:
+        return ent[0]
+    name, args = fk.split('(', 1)
+    return FF.make_filter(name, args[:-1])[0]
+
+
+
 class Runner:
     """plays ops on a fresh application object; `line()` is the protocol line, `answers` the
     implementation's answers token by token"""
@@ -392,7 +403,7 @@ class Runner:
                     if len(entries) >= self.ENV_CAP:
                         self.env_overflow = True
                         return entries
-                    h = self.FF._filter_cache[fk][0]
+                    h = filter_handler(self.FF, fk)
                     v, n, sel = core.with_timeout(lambda: h(s))
                     if v is None:
                         entries.append('%s:%s=~' % (hs(fk), hs(s)))
